@@ -366,6 +366,12 @@ func (st *State) external(caller *frame, fn *ssa.Function, args []Value) Value {
 	case "strconv.Itoa":
 		t := args[0].(*Term)
 		return strconv.Itoa(st.ConcInt(t))
+	case "strconv.ParseInt":
+		n, err := strconv.ParseInt(st.concStr(args[0], name), st.ConcInt(args[1].(*Term)), st.ConcInt(args[2].(*Term)))
+		if err != nil {
+			return Tuple{ConstInt(64, n), Iface{T: errorStringType, V: err.Error()}}
+		}
+		return Tuple{ConstInt(64, n), Iface{}}
 	case "strconv.Atoi":
 		s := st.concStr(args[0], name)
 		n, err := strconv.Atoi(s)
